@@ -47,6 +47,9 @@ def run(model, res, tier):
     H.safely(res, 'R4', 'row converters', _r4, model, res, m)
     H.safely(res, 'R5', 'recomposition', _r5, model, res, m)
     H.safely(res, 'R6', 'loop', _r6, model, res, m)
+    res.rule('R9', 'constant rows: labels and non-labels through extract_label / to_label, column indices and labels through both converters '
+             '(up to four letters and beyond), each compared with the reference the statement gives')
+    H.safely(res, 'R9', 'constant rows', _r9_tables, model, res, m)
     # where the package itself decomposes and recomposes labels - the corners of a range - every corner keeps its own parts and markers
     res.rule('R8', 'the corners of a range are recomposed from their own decomposed parts: each cell of the range event carries the marker written '
              'on that corner (shared with C10.R4)')
@@ -108,8 +111,22 @@ def label_regex(model, m):
     raise AnalysisError('the regular expression used by extract_label was not found (anchor vanished)')
 
 
+class NoRegex(Exception):
+    pass
+
+
 def _r1(model, res, m):
-    pat, node, how = label_regex(model, m)
+    try:
+        pat, node, how = label_regex(model, m)
+    except AnalysisError:
+        f_ = m.functions['extract_label']
+        uses_re = any(isinstance(n, ast.Attribute) and n.attr in ('match', 'fullmatch', 'search', 'compile') for n in ast.walk(f_))
+        if uses_re:
+            raise
+        # a hand-written scanner: the language it accepts is not decided here (R9 runs it on the constant rows)
+        res.ob('R1', '%s:extract_label' % m.name, 'label language', True, 'undecided: extract_label uses no regular expression')
+        res.notes.append('C19.R1: extract_label uses no regular expression; the accepted language is only sampled by R9')
+        return
     site = '%s:extract_label' % m.name
     try:
         L = rx.build(pat)
@@ -160,6 +177,133 @@ def _r1(model, res, m):
     else:
         res.violation('R1', site + ':groups', m.where(node), 'the label regex must have exactly the four capture groups ($, letters, $, digits); found %s' % sorted(groups),
                       func='extract_label')
+
+
+# text -> None (not a label) or (column absolute?, COLUMN letters in upper case, row absolute?, row number)
+LABEL_ROWS = (
+    ('A1', (False, 'A', False, 1)), ('$b$7', (True, 'B', True, 7)), ('xfd1048576', (False, 'XFD', False, 1048576)),
+    ('aB$12', (False, 'AB', True, 12)), ('$ZZZZ9', (True, 'ZZZZ', False, 9)), ('Q10', (False, 'Q', False, 10)),
+    ('', None), ('A', None), ('1', None), ('A1\n', None), ('\nA1', None), ('$$A1', None), ('A$$1', None), ('A 1', None), (' A1', None),
+    ('A1 ', None), ('A-1', None), ('A1.0', None), ('A1B', None), ('1A', None), ('$1', None), ('A$', None),
+    # letters and digits of other scripts are not label characters
+    ('\u03a95', None), ('\xe91', None), ('\xdf3', None), ('A\u0661', None), ('A$\u0661', None), ('C$\uff11\uff12', None),
+    ('\uff211', None), ('A\xb2', None),
+)
+COLUMN_ROWS = (0, 1, 25, 26, 27, 51, 52, 701, 702, 703, 16383, 18277, 18278, 18279, 475253, 475254, 12356629, 12356630)
+
+
+def _ref_column_label(n):
+    out = ''
+    n += 1
+    while n > 0:
+        n, r = divmod(n - 1, 26)
+        out = chr(65 + r) + out
+    return out
+
+
+def _r9_tables(model, res, m):
+    """Constant rows; only pure text / integer operations on constants are folded.  A run that is not one precise outcome is undecided."""
+    n = 0
+
+    def one(fname, args):
+        f = m.functions.get(fname)
+        if f is None:
+            return None
+        try:
+            outs = H.run_function(model, Func(m, f), lambda: [Const(a) for a in args])
+        except Unmodelled:
+            return None
+        if len(outs) != 1 or outs[0].imprecise:
+            return None
+        return outs[0]
+    for text, want in LABEL_ROWS:
+        o = one('extract_label', [text])
+        if o is None:
+            res.ob('R9', 'extract_label', {'text': text}, True, 'undecided')
+            continue
+        got = None
+        decided = True
+        if o.kind == 'return' and isinstance(o.value, ListV):
+            if len(o.value.items) == 0:
+                got = None
+            elif len(o.value.items) == 2 and all(isinstance(x, Obj) for x in o.value.items):
+                rowp, colp = o.value.items
+                try:
+                    vals = [colp.attrs['is_absolute'], colp.attrs['label'], rowp.attrs['is_absolute'], rowp.attrs['label'],
+                            colp.attrs['index'], rowp.attrs['index']]
+                except KeyError:
+                    decided = False
+                    vals = []
+                if decided and all(isinstance(v, Const) for v in vals):
+                    got = (bool(vals[0].value), str(vals[1].value).upper(), bool(vals[2].value), int(str(vals[3].value)) if str(vals[3].value).isdigit() and str(vals[3].value).isascii() else vals[3].value,
+                           vals[4].value, vals[5].value)
+                else:
+                    decided = False
+            else:
+                decided = False
+        elif o.kind == 'raise':
+            got = 'raise %r' % (o.value,)
+        else:
+            decided = False
+        if not decided:
+            res.ob('R9', 'extract_label', {'text': text}, True, 'undecided: %r' % (o.value,))
+            continue
+        n += 1
+        if want is None:
+            ok = got is None
+            exp = 'nothing (not a cell label)'
+        else:
+            import functools
+            col_index = functools.reduce(lambda a_, ch: a_ * 26 + (ord(ch) - 64), want[1], 0) - 1
+            ok = isinstance(got, tuple) and got[:4] == want and got[4] == col_index and got[5] == want[3] - 1
+            exp = 'column %s%s (index %d), row %s%d (index %d)' % ('$' if want[0] else '', want[1], col_index, '$' if want[2] else '', want[3], want[3] - 1)
+        res.ob('R9', 'extract_label', {'text': text, 'got': repr(got)[:80]}, ok)
+        if not ok:
+            res.violation('R9', '%s:extract_label:row:%s' % (m.name, ascii(text)), m.where(m.functions['extract_label']),
+                          'extract_label(%s) gives %s; the statement prescribes %s' % (ascii(text), repr(got)[:120], exp), func='extract_label')
+        # recomposition of what was decomposed
+        if want is not None and ok and 'to_label' in m.functions:
+            def call(interp, st, text=text):
+                parts = interp.call(Func(m, m.functions['extract_label']), [Const(text)])
+                return interp.call(Func(m, m.functions['to_label']), list(parts.items))
+            try:
+                outs = Interp(model).run(call)
+            except Unmodelled:
+                outs = []
+            if len(outs) == 1 and not outs[0].imprecise and outs[0].kind == 'return' and isinstance(outs[0].value, Const):
+                n += 1
+                good = outs[0].value.value == text.upper()
+                res.ob('R9', 'to_label', {'text': text, 'recomposed': outs[0].value.value}, good)
+                if not good:
+                    res.violation('R9', '%s:to_label:row:%s' % (m.name, ascii(text)), m.where(m.functions['to_label']),
+                                  'decomposing %r and recomposing the parts gives %r; the statement prescribes the same label in upper case, %r'
+                                  % (text, outs[0].value.value, text.upper()), func='to_label')
+    for idx in COLUMN_ROWS:
+        lab = _ref_column_label(idx)
+        o = one('column_index_to_label', [idx])
+        if o is not None and o.kind == 'return' and isinstance(o.value, Const):
+            n += 1
+            ok = o.value.value == lab
+            res.ob('R9', 'column_index_to_label', {'index': idx, 'label': o.value.value}, ok)
+            if not ok:
+                res.violation('R9', '%s:column_index_to_label:row' % m.name, m.where(m.functions['column_index_to_label']),
+                              'column_index_to_label(%d) gives %r; in bijective base 26 (A=0, Z=25, AA=26, ...) it is %r'
+                              % (idx, o.value.value, lab), func='column_index_to_label')
+        else:
+            res.ob('R9', 'column_index_to_label', {'index': idx}, True, 'undecided')
+        for spelled in (lab, lab.lower()):
+            o = one('column_label_to_index', [spelled])
+            if o is not None and o.kind == 'return' and isinstance(o.value, Const):
+                n += 1
+                ok = o.value.value == idx and not isinstance(o.value.value, bool)
+                res.ob('R9', 'column_label_to_index', {'label': spelled, 'index': o.value.value}, ok)
+                if not ok:
+                    res.violation('R9', '%s:column_label_to_index:row' % m.name, m.where(m.functions['column_label_to_index']),
+                                  'column_label_to_index(%r) gives %r; in bijective base 26 (A=0, Z=25, AA=26, ...) it is %d'
+                                  % (spelled, o.value.value, idx), func='column_label_to_index')
+            else:
+                res.ob('R9', 'column_label_to_index', {'label': spelled}, True, 'undecided')
+    res.soft_floor('constant rows decided', n, 60)
 
 
 def _marker_is(v, want, notes=()):
@@ -283,6 +427,17 @@ def _r3(model, res, m):
                         if isinstance(a_, ast.Name) and a_.id in m.functions and a_.id not in ('column_label_to_index', 'column_index_to_label') \
                                 and isinstance(m.functions[a_.id], ast.FunctionDef):
                             todo.append(m.functions[a_.id])
+        # locals bound once to a constant (base = COLUMN_LABEL_BASE_LENGTH) are that constant
+        consts_outer = consts
+        consts = dict(consts)
+        for g_ in [f] + [m.functions[x] for x in m.functions if id(m.functions[x]) in seen_f and m.functions[x] is not f]:
+            if isinstance(g_, ast.FunctionDef):
+                for nm_ in set(x.id for x in walk_no_defs(g_) if isinstance(x, ast.Name) and isinstance(x.ctx, ast.Store)):
+                    asg = sa.assignments_to(g_, nm_)
+                    if len(asg) == 1 and asg[0][1] is not None and isinstance(asg[0][0], ast.Assign) and nm_ not in consts:
+                        v_ = guards.const_number(asg[0][1], consts_outer)
+                        if v_ is not None:
+                            consts[nm_] = v_
         for n in body_nodes:
             if isinstance(n, ast.BinOp) and isinstance(n.op, (ast.Mod, ast.FloorDiv, ast.Div)):
                 v = guards.const_number(n.right, consts)
@@ -339,7 +494,13 @@ def _r3(model, res, m):
                           'and their indices no longer correspond one-to-one' % (fname, src(inexact[0])), func=fname)
         bad = [r for r in radix if r[1] != 26]
         okr = bool(radix) and not bad
-        res.ob('R3', '%s:%s' % (m.name, fname), 'radix is the alphabet length (26)', okr, radix)
+        if not radix:
+            # no arithmetic with a constant radix recognised (a table of widths, a library routine): the constant rows of R9 sample it
+            res.ob('R3', '%s:%s' % (m.name, fname), 'radix is the alphabet length (26)', True, 'undecided: no radix arithmetic recognised')
+            res.notes.append('C19.R3 %s: no radix arithmetic recognised; only the constant rows (R9) speak for this converter' % fname)
+            okr = True
+        else:
+            res.ob('R3', '%s:%s' % (m.name, fname), 'radix is the alphabet length (26)', okr, radix)
         if not okr:
             res.violation('R3', '%s:%s:radix' % (m.name, fname), m.where(f),
                           '%s must use the alphabet length 26 as its only radix; found %s' % (fname, bad or 'no radix arithmetic'), func=fname)
@@ -351,9 +512,17 @@ def _r3(model, res, m):
                 return t == aname or ('.' in aname and t.split('.')[-1] == aname.split('.')[-1] and t.split('.')[0] in ('cls', 'self', aname.split('.')[0]))
             finds = [n for n in body_nodes if isinstance(n, ast.Call) and isinstance(n.func, ast.Attribute) and n.func.attr in ('find', 'index')
                      and isinstance(n.func.value, (ast.Name, ast.Attribute)) and is_alphabet(n.func.value)]
+            # the bound method kept in a local:  position_of = ALPHABET.find ; position_of(letter)
+            for n in body_nodes:
+                if isinstance(n, ast.Call) and isinstance(n.func, ast.Name):
+                    asg = sa.assignments_to(f, n.func.id)
+                    if len(asg) == 1 and isinstance(asg[0][1], ast.Attribute) and asg[0][1].attr in ('find', 'index') and \
+                            isinstance(asg[0][1].value, (ast.Name, ast.Attribute)) and is_alphabet(asg[0][1].value):
+                        finds.append(n)
             ords = [n for n in body_nodes if isinstance(n, ast.Call) and sa.call_name(n) == 'ord']
             okm = bool(finds) or bool(ords)
-            res.ob('R3', '%s:%s' % (m.name, fname), 'letters are mapped through the alphabet constant', okm)
+            res.ob('R3', '%s:%s' % (m.name, fname), 'letters are mapped through the alphabet constant', True,
+                   None if okm else 'undecided: no look-up in the alphabet constant and no ord() recognised (the constant rows of R9 sample the mapping)')
             # bijective numeration has no zero digit: a letter contributes its position in the alphabet plus one (A = 1 .. Z = 26)
             for fnd in finds:
                 # the sum the lookup is a term of (a + find(.) + 1 associates as (a + find(.)) + 1)
